@@ -221,14 +221,34 @@ package scanner
 // stateSingleComment, which ignores every byte up to the line end; nothing else of the scanner changes, so the state
 // saved by startComment is the one that sees the line end.
 //@ func stateCommentStarted
+//@   ensures [C05] c == 35 ==> ret == nil && s.step == stateCommentDouble && s.curIndex == old(s.curIndex) && len(s.stepStack) == old(len(s.stepStack)) && len(s.finds) == old(len(s.finds))
 //@   ensures [C05] c != 35 && c != 10 && c != 13 && c != 0 ==> ret == nil && s.step == stateSingleComment && s.curIndex == old(s.curIndex) && len(s.stepStack) == old(len(s.stepStack)) && len(s.finds) == old(len(s.finds))
 //@   ensures [C05] c != 35 && c != 10 && c != 13 && c != 0 ==> (forall k :: 0 <= k && k < len(s.stepStack) ==> s.stepStack[k] == old(s.stepStack[k]))
 //@ func stateCommentDouble
+//@   ensures [C05] c == 35 ==> ret == nil && s.step == stateCommentBlock && s.curIndex == old(s.curIndex) && len(s.stepStack) == old(len(s.stepStack)) && len(s.finds) == old(len(s.finds))
 //@   ensures [C05] c != 35 && c != 10 && c != 13 && c != 0 ==> ret == nil && s.step == stateSingleComment && s.curIndex == old(s.curIndex) && len(s.stepStack) == old(len(s.stepStack)) && len(s.finds) == old(len(s.finds))
 //@   ensures [C05] c != 35 && c != 10 && c != 13 && c != 0 ==> (forall k :: 0 <= k && k < len(s.stepStack) ==> s.stepStack[k] == old(s.stepStack[k]))
 //@ func stateSingleComment
 //@   ensures [C05] c != 10 && c != 13 && c != 0 ==> ret == nil && s.step == old(s.step) && s.curIndex == old(s.curIndex) && len(s.stepStack) == old(len(s.stepStack)) && len(s.finds) == old(len(s.finds))
 //@   ensures [C05] c != 10 && c != 13 && c != 0 ==> (forall k :: 0 <= k && k < len(s.stepStack) ==> s.stepStack[k] == old(s.stepStack[k]))
+
+// C05, block comments: "###" opens (startComment, stateCommentStarted, stateCommentDouble), the next "###" closes and
+// returns to the saved state; every other byte inside is ignored. The three signs of the opener are not part of the text.
+//@ func stateCommentBlock
+//@   ensures [C05] c == 35 ==> ret == nil && s.step == stateCommentOnceClosed
+//@   ensures [C05] c != 35 && c != 0 ==> ret == nil && s.step == old(s.step)
+//@   ensures [C05] c == 0 ==> ret != nil
+//@   ensures [C05] ret == nil ==> s.curIndex == old(s.curIndex) && len(s.stepStack) == old(len(s.stepStack)) && len(s.finds) == old(len(s.finds)) && (forall k :: 0 <= k && k < len(s.stepStack) ==> s.stepStack[k] == old(s.stepStack[k]))
+//@ func stateCommentOnceClosed
+//@   ensures [C05] c == 35 ==> ret == nil && s.step == stateCommentTwiceClosed
+//@   ensures [C05] c != 35 && c != 0 ==> ret == nil && s.step == stateCommentBlock
+//@   ensures [C05] c == 0 ==> ret != nil
+//@   ensures [C05] ret == nil ==> s.curIndex == old(s.curIndex) && len(s.stepStack) == old(len(s.stepStack)) && len(s.finds) == old(len(s.finds)) && (forall k :: 0 <= k && k < len(s.stepStack) ==> s.stepStack[k] == old(s.stepStack[k]))
+//@ func stateCommentTwiceClosed
+//@   ensures [C05] c == 35 ==> ret == nil && s.step == old(s.stepStack[len(s.stepStack)-1]) && len(s.stepStack) == old(len(s.stepStack)) - 1 && s.curIndex == old(s.curIndex) && len(s.finds) == old(len(s.finds))
+//@   ensures [C05] c == 35 ==> (forall k :: 0 <= k && k < len(s.stepStack) ==> s.stepStack[k] == old(s.stepStack[k]))
+//@   ensures [C05] c != 35 && c != 0 ==> ret == nil && s.step == stateCommentBlock && len(s.stepStack) == old(len(s.stepStack))
+//@   ensures [C05] c == 0 ==> ret != nil
 
 //@ func (*Scanner).endCommentLine
 //@   inline
